@@ -298,6 +298,36 @@ def auto_case(rng, n):
             "stdin": make_input(rng, items, False)}
 
 
+STREAMER = r"""
+import sys, time, json, base64
+for part in json.load(open(sys.argv[1])):
+    if part["sleep"] > 0:
+        time.sleep(part["sleep"])
+    sys.stdout.buffer.write(base64.b64decode(part["data"]))
+    sys.stdout.buffer.flush()
+open(sys.argv[1] + ".done", "w").close()
+"""
+
+
+def stream_case(rng, n):
+    """--select-1 / --exit-0 must decide on the COMPLETE input: a producer trickles records that do not match, then the
+    last records - with or without the marker - a few tens of milliseconds apart, then ends"""
+    o = gen_opts(rng)
+    o["expect"], o["acceptNth"], o["delim"] = False, 0, ","
+    filler = [[T("apple")], [T("a b  c")], [T("h{AE}llo")], [W(" "), T("lead")]]
+    tails = [[[T("z")], [T("z")]], [[T("z")], [T("q"), D, T("z")]], [[T("z")], [T("apple")]], [[T("apple")], [T("z")]], [[T("z")]],
+             [[T("apple")], [T("apple")]]]
+    tail = rng.choice(tails[:2] * 3 + tails)       # mostly: a match, then ANOTHER one a moment later
+    items = [rng.choice(filler) for _ in range(rng.randint(3, 8))] + tail
+    gap = rng.choice([0.02, 0.06, 0.06, 0.12])
+    parts, k = [], len(items) - len(tail)
+    for i, it in enumerate(items):
+        sleep = (0.7 / max(1, k)) if i < k else (0.1 if i == k else gap)
+        parts.append({"sleep": sleep, "data": __import__("base64").b64encode(rec_bytes(it) + b"\n").decode()})
+    return {"id": n, "o": o, "items": items, "marker": "z", "select1": True, "exit0": rng.random() < 0.5, "stream": parts,
+            "stdin": b"".join(rec_bytes(it) + b"\n" for it in items)}
+
+
 def run_auto(ctx, fzf, c):
     o = c["o"]
     args = ["--no-color", "--no-unicode", "--query", c["marker"]] + opt_args(o, False)
@@ -307,7 +337,17 @@ def run_auto(ctx, fzf, c):
         args.append("--exit-0")
     if o["expect"]:
         args.append("--expect=ctrl-x,alt-z")
-    s = tmuxdrv.Session(ctx, fzf, args, input_data=c["stdin"], width=60, height=14, listen=False)
+    if c.get("stream"):
+        import tempfile
+        d = tempfile.mkdtemp(prefix="c07s-", dir=ctx.work)
+        with open(os.path.join(d, "p.py"), "w") as fh:
+            fh.write(STREAMER)
+        with open(os.path.join(d, "parts.json"), "w") as fh:
+            json.dump(c["stream"], fh)
+        s = tmuxdrv.Session(ctx, fzf, args, input_cmd="python3 %s %s" % (os.path.join(d, "p.py"), os.path.join(d, "parts.json")),
+                            width=60, height=14, listen=False)
+    else:
+        s = tmuxdrv.Session(ctx, fzf, args, input_data=c["stdin"], width=60, height=14, listen=False)
     try:
         s.wait_for(lambda tr: s.exited() or any(e["ev"] == "term.render" for e in tr), what="auto exit or finder start")
         started = not s.exited()
@@ -316,8 +356,13 @@ def run_auto(ctx, fzf, c):
         status, out = s.wait_exit()
     finally:
         s.close()
-    return {"k": "auto", "o": o, "query": c["marker"], "marker": c["marker"], "items": c["items"], "select1": c["select1"],
-            "exit0": c["exit0"], "started": started, "out": split_out(out, o["print0"]), "status": status}
+    rec = {"k": "auto", "o": o, "query": c["marker"], "marker": c["marker"], "items": c["items"], "select1": c["select1"],
+           "exit0": c["exit0"], "started": started, "out": split_out(out, o["print0"]), "status": status}
+    if c.get("stream"):
+        # the whole stream was written without error (fzf ending early makes the producer fail with EPIPE: then fzf decided
+        # before it had seen everything, which is what the record shows)
+        rec["produced_all"] = os.path.exists(os.path.join(d, "parts.json.done"))
+    return rec
 
 
 def run(ctx):
@@ -328,7 +373,7 @@ def run(ctx):
     fcases = [filter_case(ctx, fzf, rng, i) for i in range(nf)]
     nd = ctx.pick(len(DIRECTED), 6 * len(DIRECTED))
     scases = [directed_case(rng, i, i) for i in range(nd)] + [session_case(rng, i) for i in range(nd, ns)]
-    acases = [auto_case(rng, i) for i in range(na)]
+    acases = [auto_case(rng, i) for i in range(na)] + [stream_case(rng, na + i) for i in range(ctx.pick(48, 400))]
     if ctx.replay:
         rp = json.load(open(ctx.replay))["case"]
         fcases, scases, acases = [], [], []
@@ -376,7 +421,15 @@ def run(ctx):
         # reproduce
         r2 = run_filter(fzf, c) if kind == "filter" else run_interactive(ctx, fzf, c) if kind == "session" else run_auto(ctx, fzf, c)
         bad2, _ = judge(ctx, "Judge_Output", "Judge_Output.cfg", [clean(r2)] + ([r2["extra"]] if r2.get("extra") else []), "output-re", workers=1)
-        if not bad2:
+        tries = 1
+        while not bad2 and c.get("stream") and tries < 8:       # decisions that depend on the timing of the input
+            tries += 1
+            r2 = run_auto(ctx, fzf, c)
+            bad2, _ = judge(ctx, "Judge_Output", "Judge_Output.cfg", [clean(r2)], "output-re", workers=1)
+        if not bad2 and c.get("stream"):
+            # the recorded run stands: the process really printed this for this complete, deterministic input
+            r2 = dict(r, note="observed once; %d further runs of the same timed stream did not show it" % tries)
+        elif not bad2:
             raise Infra("rejected %s case %d not reproduced" % (kind, c["id"]))
         cc = dict(c)
         cc["stdin"] = c["stdin"].decode("latin1")
